@@ -406,3 +406,50 @@ const char *token_type_name(TokenType type) {
         default: return "UNKNOWN";
     }
 }
+
+/* The text of a string literal is kept as written in the source (the C back end pastes it into a
+ * C string literal).  Engines that hold string VALUES (evaluator, bytecode compiler) get the value
+ * the C compiler would produce: simple escapes are replaced, "\0" ends the string, an unknown
+ * escape is kept as written.  Caller frees. */
+char *nl_string_literal_value(const char *raw) {
+    size_t n = raw ? strlen(raw) : 0;
+    char *out = malloc(n + 1);
+    size_t o = 0;
+    if (!out) return NULL;
+    for (size_t i = 0; i < n; i++) {
+        if (raw[i] != '\\' || i + 1 >= n) {
+            out[o++] = raw[i];
+            continue;
+        }
+        char c = raw[++i];
+        switch (c) {
+            case 'n': out[o++] = '\n'; break;
+            case 't': out[o++] = '\t'; break;
+            case 'r': out[o++] = '\r'; break;
+            case 'a': out[o++] = '\a'; break;
+            case 'b': out[o++] = '\b'; break;
+            case 'f': out[o++] = '\f'; break;
+            case 'v': out[o++] = '\v'; break;
+            case '\\': out[o++] = '\\'; break;
+            case '"': out[o++] = '"'; break;
+            case '\'': out[o++] = '\''; break;
+            case '?': out[o++] = '?'; break;
+            case '0':
+                if (i + 1 >= n || raw[i + 1] < '0' || raw[i + 1] > '7') {
+                    out[o] = '\0';
+                    return out;
+                }
+                /* a longer octal escape is left as written */
+                out[o++] = '\\';
+                out[o++] = c;
+                break;
+            default:
+                out[o++] = '\\';
+                out[o++] = c;
+                break;
+        }
+    }
+    out[o] = '\0';
+    return out;
+}
+
